@@ -19,13 +19,13 @@ import (
 )
 
 type fixtures struct {
-	okp, akp, ukp          nkeys.KeyPair
+	okp, akp, ukp                           nkeys.KeyPair
 	opTok, acctTok, userTok, actTok, genTok string
-	creds                   []byte
-	sharedAcct              *jwt.AccountClaims
-	sharedOp                *jwt.OperatorClaims
-	sharedUser              *jwt.UserClaims
-	sharedAct               *jwt.ActivationClaims
+	creds                                   []byte
+	sharedAcct                              *jwt.AccountClaims
+	sharedOp                                *jwt.OperatorClaims
+	sharedUser                              *jwt.UserClaims
+	sharedAct                               *jwt.ActivationClaims
 }
 
 func must(err error) {
@@ -100,7 +100,7 @@ func stamp(s string) string { // drop what legitimately depends on the clock
 func script(f *fixtures, g, r int) []string {
 	var out []string
 	add := func(format string, a ...interface{}) { out = append(out, fmt.Sprintf(format, a...)) }
-	switch (g + r) % 7 {
+	switch (g + r) % 8 {
 	case 0: // own account object decoded from the shared token text: validate (writes Trace.Sampling), mutate, encode
 		ac, err := jwt.DecodeAccountClaims(f.acctTok)
 		must(err)
@@ -181,6 +181,29 @@ func script(f *fixtures, g, r int) []string {
 		vr3 := jwt.CreateValidationResults()
 		bad.Validate(vr3)
 		add("bad zone blocking=%v", vr3.IsBlocking(true))
+	case 6: // an account importing with an embedded activation token nobody has validated before: token decoding
+		// inside validation (and anything memoised around it) runs for the first time concurrently
+		at := jwt.NewActivationClaims(f.sharedAcct.Subject)
+		at.ImportSubject = jwt.Subject(fmt.Sprintf("svc.%d.%d", g, r))
+		at.ImportType = jwt.Service
+		at.Name = fmt.Sprintf("act-%d-%d", g, r)
+		tok, err := at.Encode(f.akp)
+		must(err)
+		apk, _ := f.akp.PublicKey()
+		ac := jwt.NewAccountClaims(f.sharedAcct.Subject)
+		ac.Imports.Add(&jwt.Import{Name: "i", Subject: jwt.Subject(fmt.Sprintf("svc.%d.%d", g, r)), Account: apk, Token: tok, Type: jwt.Service},
+			&jwt.Import{Name: "j", Subject: "other.>", Account: apk, Type: jwt.Stream, LocalSubject: "loc.>"})
+		ac.Exports.Add(&jwt.Export{Subject: jwt.Subject(fmt.Sprintf("e%d.%d.*", g, r)), Type: jwt.Stream, TokenReq: true})
+		vr := jwt.CreateValidationResults()
+		ac.Validate(vr)
+		add("import acct blocking=%v issues=%d", vr.IsBlocking(false), len(vr.Issues))
+		t2, err := ac.Encode(f.okp)
+		must(err)
+		b, err := jwt.DecodeAccountClaims(t2)
+		must(err)
+		vr2 := jwt.CreateValidationResults()
+		b.Validate(vr2)
+		add("import acct back imports=%d issues=%d", len(b.Imports), len(vr2.Issues))
 	default: // activation + operator
 		a, err := jwt.DecodeActivationClaims(f.actTok)
 		must(err)
